@@ -19,10 +19,13 @@ def plan(pid, tier):
     if pid == "C01":
         return [hx_leg("SA", props=["C01"]), hx_leg("SB", props=["C01"]), hx_leg("SD", props=["C01"])]
     if pid == "C02":
-        return [hx_leg("SA", props=["C02"]), hx_leg("SB", props=["C02"]), hx_leg("SC", features=("wide",), props=["C02"])]
+        return [hx_leg("SA", props=["C02"], **(dict(L=3, D=8) if q else dict(L=4, D=10))), hx_leg("SB", props=["C02"], **(dict(D=6) if q else dict(D=8))), hx_leg("SC", features=("wide",), props=["C02"])]
     if pid == "C03":
-        legs = [hx_leg("SA", props=["C03"]), hx_leg("SA", profile="rel", props=["C03"]), hx_leg("SB", props=["C03"]), hx_leg("SB", profile="rel", props=["C03"]),
-                hx_leg("SD", profile="rel", props=["C03"])]
+        sa = dict(L=3, D=7) if q else dict(L=4, D=9)
+        sb = dict(D=6) if q else dict(D=7)
+        sd = dict(L=2, D=6) if q else dict(L=3, D=7)
+        legs = [hx_leg("SA", props=["C03"], **sa), hx_leg("SA", profile="rel", props=["C03"], **sa), hx_leg("SB", props=["C03"], **(dict(D=5) if q else dict(D=6))), hx_leg("SB", profile="rel", props=["C03"], **sb),
+                hx_leg("SD", profile="rel", props=["C03"], **sd)]
         return legs
     if pid == "C04":
         return [hx_leg("SA", props=["C04"]), hx_leg("SD", props=["C04"]), hx_leg("SC", features=("wide",), props=["C04"])]
@@ -33,13 +36,13 @@ def plan(pid, tier):
     if pid == "C08":
         return [hx_leg("SA", props=["C08"]), hx_leg("SB", props=["C08"]), hx_leg("SD", props=["C08"]), hx_leg("SE", props=["C08"])]
     if pid == "C09":
-        return [hx_leg("SA", props=["C09"]), hx_leg("SB", props=["C09"])]
+        return [hx_leg("SA", props=["C09"], **(dict(L=3, D=8) if q else dict(L=5, D=10))), hx_leg("SB", props=["C09"], **(dict(D=6) if q else dict(D=8)))]
     if pid == "C10":
         return [hx_leg("SF", props=["C10", "C01", "C02", "C04", "C06", "C09", "C12"]), hx_leg("SE", props=["C10", "C01", "C04", "C12"])]
     if pid == "C12":
         return [hx_leg("SA", props=["C12"]), hx_leg("SB", props=["C12"])]
     if pid == "C13":
-        return [hx_leg("SD", props=["C13", "C01", "C02", "C06", "C09", "C12"])]
+        return [hx_leg("SD", props=["C13", "C01", "C02", "C06", "C09", "C12"], **(dict(L=2, D=7) if q else dict(L=3, D=8)))]
     if pid == "C17":
         return [hx_leg("SG", features=("events",), props=["C17"])]
     raise KeyError(pid)
